@@ -17,6 +17,7 @@ from nix_manipulator.expressions import (
     WithStatement,
 )
 from nix_manipulator.expressions.assertion import Assertion
+from nix_manipulator.expressions.binding import _decode_attr_name, _same_attr_name
 from nix_manipulator.expressions.layout import empty_line, linebreak
 from nix_manipulator.expressions.let import LetExpression
 from nix_manipulator.expressions.parenthesis import Parenthesis
@@ -341,7 +342,7 @@ def _find_binding(target_set: AttributeSet, key: str) -> Binding | None:
         (
             binding
             for binding in target_set.values
-            if isinstance(binding, Binding) and binding.name == key
+            if isinstance(binding, Binding) and _same_attr_name(binding.name, key)
         ),
         None,
     )
@@ -352,7 +353,7 @@ def _find_named_binding(
 ) -> Binding | None:
     """Find a binding by name, optionally filtering on nested flag."""
     for item in values:
-        if not isinstance(item, Binding) or item.name != key:
+        if not isinstance(item, Binding) or not _same_attr_name(item.name, key):
             continue
         if nested is None or item.nested == nested:
             return item
@@ -374,7 +375,11 @@ def _find_attrpath_leaf(
 def _find_attrpath_root(target_set: AttributeSet, root: str) -> Binding | None:
     """Locate the root binding for attrpath-derived entries."""
     for item in target_set.values:
-        if isinstance(item, Binding) and item.nested and item.name == root:
+        if (
+            isinstance(item, Binding)
+            and item.nested
+            and _same_attr_name(item.name, root)
+        ):
             return item
     return None
 
@@ -537,7 +542,10 @@ def _resolve_npath_parent(
 
 
 def _segment_name(segment: str) -> str:
-    """Strip quotes from formatted segment names."""
+    """Name denoted by a formatted segment (quotes and escapes removed)."""
+    name = _decode_attr_name(segment)
+    if name is not None:
+        return name
     if segment.startswith('"') and segment.endswith('"'):
         return segment[1:-1]
     return segment
